@@ -158,10 +158,12 @@ func New(startTime time.Time, logLevel slog.Level) *Handler {
 	// Galileo keeps GPS time.
 	startOfGalileoWeek := startOfGPSWeek
 
-	// Set the stored timestamps to match the start time.
-	timestampFromPreviousGPSMessage := (uint(startTime.Sub(startOfGPSWeek).Milliseconds()))
+	// The first observation may be earlier in the week than the start time, so
+	// start the stored timestamps at the beginning of the week.  A rollover is
+	// only detected when a later timestamp is smaller than an earlier one.
+	var timestampFromPreviousGPSMessage uint = 0
 	timestampFromPreviousGalileoMessage := timestampFromPreviousGPSMessage
-	timestampFromPreviousBeidouMessage := (uint(startTime.Sub(startOfBeidouWeek).Milliseconds()))
+	var timestampFromPreviousBeidouMessage uint = 0
 
 	handler := Handler{
 		startOfGPSWeek:                      startOfGPSWeek,
